@@ -199,3 +199,181 @@ Qed.
 (* a disabled property yields no definition at all *)
 Theorem def_msg_disabled d g v : vec_on g v = false -> mk (def_msg d g v) = s2l "delProperty".
 Proof. intros H. unfold def_msg. now rewrite H. Qed.
+
+(* ---------- C12: what cannot be applied is ignored ---------- *)
+
+(* a message that is neither getProperties nor a new*Vector does nothing *)
+Theorem foreign_kind_ignored d m :
+  str_eqb (mk m) (s2l "getProperties") = false -> kind_of_new (mk m) = None ->
+  from_client d m = (d, []).
+Proof. intros H1 H2. unfold from_client. now rewrite H1, H2. Qed.
+
+Theorem nameless_write_ignored d m k :
+  str_eqb (mk m) (s2l "getProperties") = false -> kind_of_new (mk m) = Some k ->
+  lookup (s2l "name") (ma m) = None -> from_client d m = (d, []).
+Proof. intros H1 H2 H3. unfold from_client. now rewrite H1, H2, H3. Qed.
+
+Lemma on_vec_keep d n (f : grp -> vec -> vec * list outev) (t : grp -> vec -> list outev) :
+  (forall g v, In g (d_groups d) -> In v (g_vecs g) -> f g v = (v, t g v)) ->
+  on_vec d n f = (d, match find_gv n (d_groups d) with Some (g, v) => t g v | None => [] end).
+Proof.
+  intros Hf. unfold on_vec. rewrite (upd_vec_keep d (d_groups d) n f t Hf). now rewrite with_groups_id.
+Qed.
+
+(* a write naming an unknown property does nothing *)
+Theorem unknown_property_ignored d m k n :
+  str_eqb (mk m) (s2l "getProperties") = false -> kind_of_new (mk m) = Some k ->
+  lookup (s2l "name") (ma m) = Some n -> find_gv n (d_groups d) = None ->
+  from_client d m = (d, []).
+Proof.
+  intros H1 H2 H3 H4. unfold from_client. rewrite H1, H2, H3. unfold on_vec.
+  assert (forall gs, find_gv n gs = None ->
+            forall f, upd_vec d gs n f = (gs, [], false)) as G.
+  { induction gs as [|g gs IH]; intros Hn f; simpl; [reflexivity|].
+    unfold find_gv in Hn. cbn [flat_map] in Hn. rewrite find_app, find_map_pair in Hn.
+    destruct (find (named n) (g_vecs g)) as [v|] eqn:Fv; [discriminate|]. simpl in Hn.
+    assert (upd_vec_in (g_vecs g) n (f g) = (g_vecs g, [], false)) as ->.
+    { clear - Fv. induction (g_vecs g) as [|v vs IHv]; simpl in *; [reflexivity|].
+      unfold named in Fv at 1. destruct (str_eqb (v_name v) n); [discriminate|]. now rewrite IHv. }
+    now rewrite (IH Hn). }
+  rewrite (G _ H4). now rewrite with_groups_id.
+Qed.
+
+(* a write of the wrong kind for the property it names does nothing *)
+Theorem kind_mismatch_ignored d m k n g v :
+  str_eqb (mk m) (s2l "getProperties") = false -> kind_of_new (mk m) = Some k ->
+  lookup (s2l "name") (ma m) = Some n ->
+  (forall g' v', In g' (d_groups d) -> In v' (g_vecs g') -> named n v' = true -> vkind_eqb k (v_kind v') = false) ->
+  find_gv n (d_groups d) = Some (g, v) ->
+  from_client d m = (d, []).
+Proof.
+  intros H1 H2 H3 Hk Hf. unfold from_client. rewrite H1, H2, H3. unfold on_vec.
+  assert (forall gs, (forall g' v', In g' gs -> In v' (g_vecs g') -> named n v' = true -> vkind_eqb k (v_kind v') = false) ->
+            exists ok, upd_vec d gs n (fun g0 v0 => if vkind_eqb k (v_kind v0)
+                                                     then apply_children d g0 v0 (match mc m with Some l => l | None => [] end)
+                                                     else (v0, [])) = (gs, [], ok)) as G.
+  { induction gs as [|g0 gs IH]; intros Hk'; simpl; [eauto|].
+    assert (exists ok, upd_vec_in (g_vecs g0) n
+              (fun v0 => if vkind_eqb k (v_kind v0) then apply_children d g0 v0 (match mc m with Some l => l | None => [] end) else (v0, []))
+              = (g_vecs g0, [], ok)) as [ok Hu].
+    { assert (forall v', In v' (g_vecs g0) -> named n v' = true -> vkind_eqb k (v_kind v') = false) as Hk0
+        by (intros; eapply Hk'; eauto; now left).
+      clear - Hk0. induction (g_vecs g0) as [|v0 vs IHv]; simpl; [eauto|].
+      destruct (str_eqb (v_name v0) n) eqn:E.
+      - rewrite (Hk0 v0 (or_introl eq_refl) E). eauto.
+      - destruct IHv as [ok Hok]; [intros; apply Hk0; auto; now right|]. rewrite Hok. eauto. }
+    rewrite Hu. destruct ok; [rewrite with_vecs_id; eauto|].
+    destruct (IH ltac:(intros; eapply Hk'; eauto; now right)) as [ok' Hok']. rewrite Hok'. eauto. }
+  destruct (G (d_groups d) Hk) as [ok Hok]. rewrite Hok. now rewrite with_groups_id.
+Qed.
+
+(* children that cannot be applied - unknown element, no parsable value - are skipped *)
+Definition inapplicable (v : vec) (p : part) : Prop :=
+  match lookup (s2l "name") (pa p) with
+  | Some n => match index_of n (v_elems v) 0 with
+              | Some _ => value_of_child (v_kind v) p = None
+              | None => True
+              end
+  | None => True
+  end.
+
+Theorem inapplicable_children_skipped d g v ch :
+  Forall (inapplicable v) ch -> apply_children d g v ch = (v, []).
+Proof.
+  unfold apply_children. induction 1 as [|p ch Hp Hch IH]; cbn [fold_left]; [reflexivity|].
+  unfold inapplicable in Hp. destruct (lookup (s2l "name") (pa p)) as [n|]; [|exact IH].
+  destruct (index_of n (v_elems v) 0) as [i|]; [|exact IH]. now rewrite Hp.
+Qed.
+
+(* ---------- frame: a write touches only the property it names ---------- *)
+Definition find_vec (n : str) (d : dev) : option vec := option_map snd (find_gv n (d_groups d)).
+
+Lemma publish_set_name d g v : v_name (fst (publish_set d g v)) = v_name v.
+Proof.
+  unfold publish_set. destruct (vec_on g v); [|reflexivity].
+  destruct (read_elems (v_elems v)). reflexivity.
+Qed.
+
+Lemma assign_name d g v i x : v_name (fst (assign d g v i x)) = v_name v.
+Proof.
+  unfold assign. destruct (nth_error (v_elems v) i); [|reflexivity].
+  pose proof (publish_set_name d g (with_elems v (store v i x))) as H.
+  destruct (publish_set d g (with_elems v (store v i x))). exact H.
+Qed.
+
+Lemma set_value_name d g v i x : v_name (fst (set_value d g v i x)) = v_name v.
+Proof.
+  unfold set_value. destruct (nth_error (v_elems v) i); [|reflexivity].
+  destruct (dispatch_event EWrite (e_handlers e) None (Some x)) as [tr veto].
+  destruct veto; [reflexivity|]. pose proof (assign_name d g v i x) as H.
+  destruct (assign d g v i x). exact H.
+Qed.
+
+Lemma apply_children_name d g ch : forall v, v_name (fst (apply_children d g v ch)) = v_name v.
+Proof.
+  unfold apply_children.
+  assert (forall v tr, v_name (fst (fold_left (fun acc p =>
+             let '(v', tr) := acc in
+             match lookup (s2l "name") (pa p) with
+             | Some n => match index_of n (v_elems v') 0 with
+                         | Some i => match value_of_child (v_kind v') p with
+                                     | Some x => let (v'', tr') := set_value d g v' i x in (v'', tr ++ tr')
+                                     | None => acc
+                                     end
+                         | None => acc
+                         end
+             | None => acc
+             end) ch (v, tr))) = v_name v) as G.
+  { induction ch as [|p ch IH]; intros v tr; cbn [fold_left]; [reflexivity|].
+    destruct (lookup (s2l "name") (pa p)) as [n|]; [|apply IH].
+    destruct (index_of n (v_elems v) 0) as [i|]; [|apply IH].
+    destruct (value_of_child (v_kind v) p) as [x|]; [|apply IH].
+    pose proof (set_value_name d g v i x) as H. destruct (set_value d g v i x) as [v'' tr'].
+    rewrite IH. exact H. }
+  intros v. apply G.
+Qed.
+
+Lemma upd_vec_in_frame vs n n' (f : vec -> vec * list outev) :
+  n' <> n -> (forall v, v_name (fst (f v)) = v_name v) ->
+  find (named n') (fst (fst (upd_vec_in vs n f))) = find (named n') vs.
+Proof.
+  intros Hne Hf. induction vs as [|v vs IH]; simpl; [reflexivity|].
+  destruct (str_eqb (v_name v) n) eqn:E.
+  - apply str_eqb_spec in E. pose proof (Hf v) as Hn. destruct (f v) as [v' tr]. simpl in *.
+    unfold named. rewrite Hn, E.
+    assert (str_eqb n n' = false) as -> by (apply str_eqb_neq; congruence). reflexivity.
+  - destruct (upd_vec_in vs n f) as [[r' tr] ok]. simpl in *. unfold named at 1 3.
+    destruct (str_eqb (v_name v) n'); [reflexivity|exact IH].
+Qed.
+
+Lemma upd_vec_frame d gs n n' (f : grp -> vec -> vec * list outev) :
+  n' <> n -> (forall g v, v_name (fst (f g v)) = v_name v) ->
+  option_map snd (find_gv n' (fst (fst (upd_vec d gs n f)))) = option_map snd (find_gv n' gs).
+Proof.
+  intros Hne Hf. induction gs as [|g gs IH]; simpl; [reflexivity|].
+  pose proof (upd_vec_in_frame (g_vecs g) n n' (f g) Hne (Hf g)) as Hv.
+  destruct (upd_vec_in (g_vecs g) n (f g)) as [[vs tr] ok]. simpl in Hv.
+  unfold find_gv in *. destruct ok; cbn [fst flat_map].
+  - rewrite !find_app, !find_map_pair. cbn [with_vecs g_vecs]. rewrite Hv.
+    destruct (find (named n') (g_vecs g)); reflexivity.
+  - destruct (upd_vec d gs n f) as [[r' tr'] ok']. cbn [fst flat_map] in *.
+    rewrite !find_app, !find_map_pair. destruct (find (named n') (g_vecs g)); [reflexivity|exact IH].
+Qed.
+
+(* whatever a client writes - valid, partly valid or hostile - no property other than
+   the one it names changes in any way *)
+Theorem write_touches_only_the_named_property d m n n' :
+  str_eqb (mk m) (s2l "getProperties") = false ->
+  lookup (s2l "name") (ma m) = Some n -> n' <> n ->
+  find_vec n' (fst (from_client d m)) = find_vec n' d.
+Proof.
+  intros H1 H2 Hne. unfold from_client. rewrite H1, H2.
+  destruct (kind_of_new (mk m)) as [k|]; [|reflexivity].
+  unfold find_vec, on_vec.
+  pose proof (upd_vec_frame d (d_groups d) n n'
+                (fun g v => if vkind_eqb k (v_kind v)
+                            then apply_children d g v (match mc m with Some l => l | None => [] end)
+                            else (v, [])) Hne) as H.
+  destruct (upd_vec d (d_groups d) n _) as [[gs tr] ok]. simpl in *. apply H.
+  intros g v. destruct (vkind_eqb k (v_kind v)); [apply apply_children_name|reflexivity].
+Qed.
